@@ -10,6 +10,7 @@ near-sep new|old <sep> <vals> <pts>             -> ok [v,nan,…]   (nan = fill 
 lin-tri <[ax,ay,bx,by,cx,cy]> <[va,vb,vc]> <[px,py]>   -> ok v | ok nan (degenerate simplex)
 near-uns <pts> <vals> <evalpts>                 -> ok [values of all minimisers];[…] first [nearestUnstructured values]
 bin sum|mean <s> <dims> <vals>                  -> ok [..] | err value
+bins sum|mean <ss> <dims> <vals>                per-axis factors `ss` (same order as dims, slowest first)
 binw <s> <dims> <vals> <weights>                weighted mean (non-regular grids)
 bint <s> <dims> <ncomp> <vals>                  tensor field, statistic sum
 ss mean|sum <c0> <c> <q> <sep> <ns>             evaluate_supersampled of c0+Σc·x+Σq·x²
@@ -78,6 +79,16 @@ def step (st : St) : List String → St × String
       match stat with
       | "sum" => (st, "ok " ++ showRatList (binND s dims vals))
       | "mean" => (st, "ok " ++ showRatList (binMean s dims vals))
+      | _ => (st, "bad-op")
+    | _, _, _ => (st, "bad-op")
+  | ["bins", stat, ss, dims, vals] =>
+    match parseNatList? ss, parseNatList? dims, parseRatList? vals with
+    | some ss, some dims, some vals =>
+      if ss.any (· = 0) || ss.length ≠ dims.length then (st, "bad-op") else
+      if vals.length ≠ fineSizes ss dims then (st, "err value") else
+      match stat with
+      | "sum" => (st, "ok " ++ showRatList (binNDs ss dims vals))
+      | "mean" => (st, "ok " ++ showRatList (binMeans ss dims vals))
       | _ => (st, "bad-op")
     | _, _, _ => (st, "bad-op")
   | ["binw", s, dims, vals, w] =>
